@@ -18,3 +18,8 @@ import Csproto.Bridge.Templates
 #print axioms Csproto.Gen.loop_step
 #print axioms Csproto.Gen.unmarshal_records
 #print axioms Csproto.Gen.roundtrip_flat
+#print axioms Csproto.C06.unmarshal_is_record_tree_decode
+#print axioms Csproto.C06.roundtrip_nested
+#print axioms Csproto.C06.roundtrip_nested_example
+#print axioms Csproto.Gen.unmarshal_nested
+#print axioms Csproto.Gen.roundtrip_nested
